@@ -20,6 +20,7 @@ def dispatch (j : Json) : R Json := do
   | "dump" => opDump j
   | "ws_combine" => opWsCombine j
   | "ws_sorted" => opWsSorted j
+  | "events" => opEvents j
   | _ => throw s!"unknown op {op}"
 
 partial def loop (hin hout : IO.FS.Stream) : IO Unit := do
